@@ -35,7 +35,7 @@ def rule_merge_op(ctx, rep):
         "defined in the ResultSet hierarchy; dict.__ior__ is a plain update that drops the earlier file's findings per rule id",
         min_instances=4,
     )
-    for fn in ctx.prog.functions.values():
+    for fn in ctx.prog.live_functions():
         r = ctx.resolver(fn)
         for n in walk_no_nested(fn.node):
             if isinstance(n, ast.AugAssign) and isinstance(n.op, ast.BitOr):
@@ -87,7 +87,7 @@ def rule_total_lookup(ctx, rep):
         min_instances=2,
     )
     mod = ctx.prog.module("codemodder.result")
-    fns = [f for f in ctx.prog.functions.values() if f.module is mod]
+    fns = [f for f in ctx.prog.live_functions() if f.module is mod]
     n_loops = 0
     for fn in fns:
         for loop, key, ops in _key_union_loops(fn):
@@ -117,7 +117,7 @@ def rule_or_precedence(ctx, rep):
         min_instances=1,
     )
     n_or = 0
-    for fn in ctx.prog.functions.values():
+    for fn in ctx.prog.live_functions():
         for n in walk_no_nested(fn.node):
             if isinstance(n, ast.BoolOp) and isinstance(n.op, ast.Or):
                 n_or += 1
